@@ -52,13 +52,34 @@ Inductive hop : Type :=
 | HUnroot                                   (* Tree.UnRoot() *)
 | HGraftTip (name : string) (k : nat)       (* GraftTipOnEdge(new tip "name", Edges()[k]) *)
 | HRemoveEdge (rr rt : bool) (k : nat)      (* RemoveEdges(rr, rt, Edges()[k]) *)
-| HNniApply (r : nni).                      (* newNNI(t, n1, n2, cross).Apply() for the positional proposal r *)
+| HNniApply (r : nni)                       (* newNNI(t, n1, n2, cross).Apply() for the positional proposal r *)
+| HRemoveTip (nm : string)                  (* removeTip(the first tip of Tips() named nm) *)
+| HRotate (cs : list nat).                  (* Tree.RotateInternalNodes() with the random choices cs *)
 
 Local Open Scope string_scope.
 Definition err_no_node : string := "The node is not part of the tree".
 Definition err_no_branch : string := "model: no such branch".
 
 Definition err_nni_heap : string := "model: the rearrangement is not applicable".
+
+
+(** path of the first node (pre-order, below the root) that is a tip named [nm] *)
+Definition find_go (f : utree -> option (list nat)) (nm : string) : nat -> list slot -> option (list nat) :=
+  fix go (i : nat) (l : list slot) : option (list nat) :=
+    match l with
+    | [] => None
+    | None :: r => go (S i) r
+    | Some (e, ch) :: r =>
+      if is_tip ch && String.eqb (uname ch) nm then Some [i]
+      else match f ch with Some p => Some (i :: p) | None => go (S i) r end
+    end.
+
+Fixpoint find_sub (nm : string) (t : utree) : option (list nat) :=
+  match t with UNode n c sl => find_go (fun ch => find_sub nm ch) nm 0 sl end.
+
+(** the first tip of Tips() named [nm]: the root itself when it has a single neighbour *)
+Definition find_tip (nm : string) (t : utree) : option (list nat) :=
+  if is_tip t && String.eqb (uname t) nm then Some [] else find_sub nm t.
 
 (** follow slot indexes from a node; the parent slot is not a way down *)
 Fixpoint walk (h : heap) (prev : option nat) (cur : nat) (p : list nat) : hres nat :=
@@ -98,6 +119,8 @@ Definition run_hop_tree (o : hop) (t : utree) : res utree :=
   | HRemoveEdge rr rt k =>
     if Nat.ltb k (length (edges t)) then Ok (Collapse.remove_edges_idx rr rt [k] t) else Err err_no_branch
   | HNniApply r => match NNI.apply r t with Some t' => Ok t' | None => Err err_nni_heap end
+  | HRemoveTip nm => Prune.remove_tip nm t
+  | HRotate cs => Ok (fst (rotate_all t cs))
   end.
 
 Fixpoint run_tree (ops : list hop) (t : utree) : res utree :=
@@ -127,6 +150,16 @@ Definition run_hop_heap (o : hop) (h : heap) : hres heap :=
     HOk (snd r)
   | HRemoveEdge rr rt k => do e <- kth_edge h k; remove_edge rr rt e h
   | HNniApply r => nni_apply_at r h
+  | HRemoveTip nm =>
+    match abs h with
+    | Some t =>
+      match find_tip nm t with
+      | Some P => do x <- walk h None (hroot h) P; remove_tip_heap nm x h
+      | None => HErr (Prune.err_not_tip nm)
+      end
+    | None => HPanic
+    end
+  | HRotate cs => rotate_internal_nodes_heap cs h
   end.
 
 Fixpoint run_heap (ops : list hop) (h : heap) : hres heap :=
